@@ -79,7 +79,16 @@ func checkReturnIs(c *Ctx, rule, construct string, f *ssa.Function, k int, want,
 		c.undecided(rule, construct, f.Pos(), fmt.Sprintf("%d return sites; one yields %s; want %s", len(alts), short(diff.String()), short(want)))
 		return
 	}
-	c.cmpTerm(rule, construct, f.Pos(), diff, want, okWhy, "wrapper does not return the expected call")
+	// the package's other exported functions are vocabulary: a wrapper wired to a sibling is a recognised difference
+	var siblings []string
+	if sp := pkgOf(f); sp != nil {
+		for _, m := range sp.Members {
+			if g, ok := m.(*ssa.Function); ok && g.Object() != nil && g.Object().Exported() {
+				siblings = append(siblings, "call["+fname(g)+"](x)")
+			}
+		}
+	}
+	c.cmpTerm(rule, construct, f.Pos(), diff, want, okWhy, "wrapper does not return the expected call", siblings...)
 }
 
 // checkFileWrite: a Write(x, path) wrapper must put exactly data(x) into a truncated/created file.
@@ -222,6 +231,11 @@ func lenLowerBound(tb *TermBuilder, b *ssa.BasicBlock, x string) int64 {
 	}
 	// the same facts read off the path condition (sees through predicate helpers and bool variables)
 	for _, a := range pathCond(tb, b.Parent().Blocks[0], b).atoms() {
+		if !a.Disj && !a.Neg && (a.Atom.isCall("strings.HasPrefix") || a.Atom.isCall("strings.HasSuffix")) && len(a.Atom.Args) == 2 && a.Atom.Args[0].String() == x {
+			if cs, ok := a.Atom.Args[1].constStr(); ok && int64(len(cs)) > lb {
+				lb = int64(len(cs))
+			}
+		}
 		if a.Disj || a.Atom.Op != "binop" || len(a.Atom.Args) != 2 {
 			continue
 		}
@@ -236,6 +250,15 @@ func lenLowerBound(tb *TermBuilder, b *ssa.BasicBlock, x string) int64 {
 		}
 		switch a.Atom.Name {
 		case "==":
+			if !a.Neg {
+				// x == "const": the length is known
+				if cs, ok := l.constStr(); ok && rs == x {
+					up(int64(len(cs)))
+				}
+				if cs, ok := r.constStr(); ok && ls == x {
+					up(int64(len(cs)))
+				}
+			}
 			if a.Neg && ((ls == lenx && rok && rk == 0) || (rs == lenx && lok && lk == 0) || (ls == x && r.isConst(`""`)) || (rs == x && l.isConst(`""`))) {
 				up(1)
 			}
@@ -321,7 +344,26 @@ func checkPrefix(c *Ctx, rule string, f *ssa.Function) int {
 				if !strings.Contains(as, xs) {
 					continue
 				}
-				if !(strings.HasPrefix(as, "binop[") && (strings.Contains(as, "call[builtin:len]("+xs+")") || strings.Contains(as, `const[""]`) || strings.Contains(as, "slice("+xs))) {
+				readable := false
+				switch {
+				case a.Atom.Op == "binop" && len(a.Atom.Args) == 2:
+					// comparisons of the string, its length, a constant-bounded slice or one of its bytes with a constant
+					for k := 0; k < 2; k++ {
+						o, cst := stripConv(a.Atom.Args[k]), a.Atom.Args[1-k]
+						if cst.Op != "const" {
+							continue
+						}
+						switch {
+						case o.String() == xs, o.isCall("builtin:len") && o.Args[0].String() == xs:
+							readable = true
+						case (o.Op == "slice" || o.Op == "index") && o.Args[0].String() == xs:
+							readable = true
+						}
+					}
+				case a.Atom.Op == "call" && strings.HasPrefix(a.Atom.Name, "strings.") && len(a.Atom.Args) == 2 && a.Atom.Args[0].String() == xs && a.Atom.Args[1].Op == "const":
+					readable = true // HasPrefix/HasSuffix/Contains(x, const): no length information when false
+				}
+				if !readable {
 					state = unknown
 				}
 			}
